@@ -40,6 +40,8 @@ def run(ctx):
                     tx.self_test(ctx, tp)
             ev = tx.vf.read_ndjson(tp)
             ctx.samples.append({"trace_event": next((e for e in ev if e["event"] == "Tx" and e["state"] == "FAIL" and e["gas"] > 0), ev[-1])})
+    if binary:
+        tx.deploy_destroyed_probe(ctx, binary)
     ctx.finish("model_checking", {
         "states": ctx.stats["states"], "transitions": ctx.stats["transitions"],
         "traces_validated_against_impl": npaths + ngroups, "trace_events": nev,
